@@ -204,6 +204,19 @@ func (sc *collection) doBuild(ctx context.Context) (Provider, error) {
 		}
 	}
 
+	// A dependency on a group is a dependency on every member of the group:
+	// connect each group node to its members so that cycles through groups are
+	// detected and members are created before the services consuming the group
+	for groupKey, members := range sc.groups {
+		if err := g.AddProviderDeferred(newGroupNode(groupKey, members)); err != nil {
+			return nil, &BuildError{
+				Phase:   "graph",
+				Details: fmt.Sprintf("failed to add group %v", groupKey.Group),
+				Cause:   err,
+			}
+		}
+	}
+
 	// Phase 2: Validate graph (cycles detected here, not per-add)
 	if err := g.DetectCycles(); err != nil {
 		return nil, &BuildError{
@@ -321,6 +334,35 @@ func (sc *collection) doBuild(ctx context.Context) (Provider, error) {
 
 	return p, nil
 }
+
+// groupNode is the graph node standing for "all members of a group". Its
+// dependencies are the group's members.
+type groupNode struct {
+	key     GroupKey
+	members []*reflection.Dependency
+}
+
+func newGroupNode(key GroupKey, members []*Descriptor) *groupNode {
+	n := &groupNode{key: key, members: make([]*reflection.Dependency, 0, len(members))}
+	for _, member := range members {
+		if member == nil {
+			continue
+		}
+
+		n.members = append(n.members, &reflection.Dependency{
+			Type:  member.Type,
+			Key:   member.Key,
+			Group: member.Group,
+		})
+	}
+
+	return n
+}
+
+func (n *groupNode) GetType() reflect.Type                     { return n.key.Type }
+func (n *groupNode) GetKey() any                               { return nil }
+func (n *groupNode) GetGroup() string                          { return n.key.Group }
+func (n *groupNode) GetDependencies() []*reflection.Dependency { return n.members }
 
 // AddModules applies one or more module configurations to the service collection.
 func (sc *collection) AddModules(modules ...ModuleOption) error {
